@@ -29,6 +29,8 @@ type Ctx struct {
 	MayBeRefused bool // the spec breaks a restriction goag documents: refusing it is fine
 	NeedClient   bool
 
+	// JSONTimeLayouts: date-time schemas of the JSON dialect may carry x-goag-go-time-format
+	JSONTimeLayouts bool
 	// LowerCompNames: also draw component keys that start with a lower-case letter
 	LowerCompNames bool
 
@@ -300,7 +302,12 @@ func (c *Ctx) rawSchema(depth int, pos string) *Schema {
 	var s *Schema
 	switch kind {
 	case "prim":
-		s = c.prim("prim").Schema()
+		pr := c.prim("prim")
+		// (C06 only) a date-time property / item may carry a Go layout of its own
+		if c.JSONTimeLayouts {
+			pr = c.maybeLayout(pr, "prim")
+		}
+		s = pr.Schema()
 	case "any":
 		s = &Schema{}
 	case "array":
